@@ -58,6 +58,8 @@ type c14in struct {
 	Pattern string  `json:"pattern,omitempty"`
 	BU      int     `json:"bu"`
 	SegPart string  `json:"seg_part,omitempty"`
+	Prefix  string  `json:"prefix,omitempty"` // further URL options of a traffic request, e.g. "chunkdur_0.5/ato_1/"
+	File    string  `json:"file,omitempty"`
 	Secs    []int64 `json:"secs,omitempty"`
 }
 
@@ -897,6 +899,15 @@ func (h *harness) trafficURL(a *lib.TLAsset, r *lib.TLRep, pattern string, bu st
 	return
 }
 
+// trafficURLMode: a request below BaseURL bu for representation repID, file file, with further URL options prefix.
+func trafficURLMode(a *lib.TLAsset, prefix, pattern, bu, repID, file string, now int64) (url, plain, strip, segPart string) {
+	segPart = fmt.Sprintf("/%s%s/%s", bu, repID, file)
+	url = fmt.Sprintf("/livesim2/traffic_%s/%s%s%s?nowMS=%d", pattern, prefix, a.Path, segPart, now)
+	plain = fmt.Sprintf("/livesim2/%s%s%s?nowMS=%d", prefix, a.Path, segPart, now)
+	strip = fmt.Sprintf("/livesim2/%s%s/%s/%s?nowMS=%d", prefix, a.Path, repID, file, now)
+	return
+}
+
 func delayClass(d time.Duration) int64 {
 	switch {
 	case d >= 9900*time.Millisecond:
@@ -1085,6 +1096,52 @@ func (h *harness) slowSweep(a *lib.TLAsset) func() {
 		cyc := int64(len(fl))
 		for s := int64(2000); s < 2000+2*cyc; s++ {
 			slow = append(slow, mk(printPattern(p), s, fl[s%cyc]))
+		}
+	}
+	// every state crossed with every delivery mode: the state decides the answer, the way the segment is
+	// produced (complete, chunked low latency, encrypted, generated, stored text, thumbnail, audio, $Time$)
+	// must not change it
+	type dmode struct{ name, prefix, rep, ext, addr string }
+	modes := []dmode{
+		{"chunked-video", "chunkdur_0.5/ato_1/", r.ID, ".m4s", "nr"},
+		{"chunked-audio", "chunkdur_1/ato_0.5/", "A48", ".m4s", "nr"},
+		{"audio", "", "A48", ".m4s", "nr"},
+		{"encrypted", "eccp_cbcs/", r.ID, ".m4s", "nr"},
+		{"generated-subtitles", "timesubsstpp_en/", "timestpp-en", ".m4s", "nr"},
+		{"generated-wvtt/time", "timesubswvtt_sv/segtimeline_1/", "timewvtt-sv", ".m4s", "ms"},
+		{"stored-text", "", "imsc1_txt_sv", ".m4s", "nr"},
+		{"thumbnail", "", "thumbs", ".jpg", "nr"},
+		{"time-addressing", "segtimeline_1/", r.ID, ".m4s", "ticks"},
+		{"ato/tsbd", "ato_3/tsbd_20/", r.ID, ".m4s", "nr"},
+	}
+	if a.Path == "testpic_2s" {
+		dp := []itvl{{1, 'u'}, {1, 'd'}, {1, 's'}, {1, 'h'}}
+		fl := flatten(dp)
+		reps := 1
+		if c.Thorough() {
+			reps = 3
+		}
+		for mi, m := range modes {
+			for s := int64(2400 + 4*mi); s < int64(2400+4*mi+4*reps); s++ {
+				now := s*1000 + (s*37)%1000
+				n := now/segMS - 2
+				var file string
+				switch m.addr {
+				case "ms":
+					file = fmt.Sprintf("%d%s", n*segMS, m.ext)
+				case "ticks":
+					file = fmt.Sprintf("%d%s", r.LoopS(n), m.ext)
+				default:
+					file = fmt.Sprintf("%d%s", n, m.ext)
+				}
+				url, plain, strip, segPart := trafficURLMode(a, m.prefix, printPattern(dp), "bu0/", m.rep, file, now)
+				want := fl[s%4]
+				q := &trafficReq{in: c14in{Kind: "traffic", Domain: "ok", Asset: a.Path, Rep: m.rep, Pattern: printPattern(dp), BU: 0, SegPart: segPart, Prefix: m.prefix, File: file, N: n, NowMS: now, URL: url},
+					url: url, plainURL: plain, stripURL: strip, want: want, toCoq: true, id: fmt.Sprint(h.id())}
+				h.nEval++
+				c.Count("traffic/delivery/" + m.name + "/" + string(rune(want)))
+				slow = append(slow, q)
+			}
 		}
 	}
 	var wg sync.WaitGroup
@@ -1374,7 +1431,11 @@ func (h *harness) replay(in c14in, assets []*lib.TLAsset) {
 				want = 'u'
 			}
 		}
-		q := &trafficReq{in: in, url: in.URL, plainURL: fmt.Sprintf("/livesim2/%s%s?nowMS=%d", a.Path, in.SegPart, in.NowMS), stripURL: strip, want: want, id: "replay"}
+		plainURL := fmt.Sprintf("/livesim2/%s%s?nowMS=%d", a.Path, in.SegPart, in.NowMS)
+		if in.File != "" {
+			_, plainURL, strip, _ = trafficURLMode(a, in.Prefix, in.Pattern, fmt.Sprintf("bu%d/", in.BU), in.Rep, in.File, in.NowMS)
+		}
+		q := &trafficReq{in: in, url: in.URL, plainURL: plainURL, stripURL: strip, want: want, id: "replay"}
 		t0 := time.Now()
 		q.resp = h.get(q.url)
 		q.elapsed = time.Since(t0)
@@ -1487,7 +1548,7 @@ func run(c *lib.Ctx) error {
 	c.Res.Evaluations = h.nEval
 	c.Res.ModelCases = len(h.terms)
 	c.Res.DistinctNontrivial = len(h.dist)
-	c.Res.Rule = "statuscode_ combined with every other timing/addressing family (ato below/equal/above a segment and inf, tsbd, chunked mode, periods, start, snr, $Time$) and every track kind (video, audio, stored text, thumbnails, generated subtitles); statuscode_: bundled assets (1, 2, 4, ... segments; 2 s, 6 s, 8 s, alternating, 2.002 s) x cycle {3,5,8,30,31} x every rsq up to the number of segments per cycle x every segment over >= 6 cycles; representation filters (*, video id, audio id, no match), video and audio, Number / Timeline-Number / Timeline-Time, two and three simultaneous patterns; start_30, snr_7, start_1000/snr_3 (findings stream); calcStatusCode on random synthetic tables (1-6 segments, irregular durations, 5 timescales). traffic_: every pattern of 1-4 intervals over {u,d} with durations 1-3 at every second of 3 cycles, three patterns per URL selected by bu<i>; s/h patterns recognised by their delay; all patterns over {u,d,s,h} and random strings through CreateLossItvls/StateAt; BaseURL elements of the MPD. distinct = distinct (configuration, request) pairs for which the oracle confirmed the prescribed answer"
+	c.Res.Rule = "statuscode_ combined with every other timing/addressing family (ato below/equal/above a segment and inf, tsbd, chunked mode, periods, start, snr, $Time$) and every track kind (video, audio, stored text, thumbnails, generated subtitles); statuscode_: bundled assets (1, 2, 4, ... segments; 2 s, 6 s, 8 s, alternating, 2.002 s) x cycle {3,5,8,30,31} x every rsq up to the number of segments per cycle x every segment over >= 6 cycles; representation filters (*, video id, audio id, no match), video and audio, Number / Timeline-Number / Timeline-Time, two and three simultaneous patterns; start_30, snr_7, start_1000/snr_3 (findings stream); calcStatusCode on random synthetic tables (1-6 segments, irregular durations, 5 timescales). traffic_: every state (up, down, slow, hang) crossed with every delivery mode (chunked low latency video/audio, audio, encrypted, generated subtitles, stored text, thumbnails, $Time$, ato/tsbd); every pattern of 1-4 intervals over {u,d} with durations 1-3 at every second of 3 cycles, three patterns per URL selected by bu<i>; s/h patterns recognised by their delay; all patterns over {u,d,s,h} and random strings through CreateLossItvls/StateAt; BaseURL elements of the MPD. distinct = distinct (configuration, request) pairs for which the oracle confirmed the prescribed answer"
 	keys := make([]string, 0, len(c.Res.Inputs))
 	for k := range c.Res.Inputs {
 		keys = append(keys, k)
